@@ -643,6 +643,14 @@ def c08_oracle(op, impl):
             return ("a cloned / re-parsed secret key signs differently from the key it came from (deterministic signature scheme): " + impl, "%s/key/clone-signs-differently" % be)
         if impl.startswith("err"):
             return ("signing with an accepted secret key failed: " + impl, "%s/key/keypair" % be)
+    elif t[0] == "o.pkforms":
+        if impl.startswith("ok forms="):
+            f = dict(x.split("=") for x in impl[3:].split(" "))
+            if not (f["forms"] == f["verifies"] == f["seals"] == f["clone"]):
+                return ("a public key accepted in another encoding of the same point does not behave like the derived public key "
+                        "(verify what the secret key signs / unseal what is sealed to it): " + impl, "%s/key/alt-form-behaviour" % be)
+        elif impl.startswith("err"):
+            return ("alternative public key forms: " + impl, "%s/key/alt-form-behaviour" % be)
     elif t[0] == "key.dec" and impl.startswith("ok"):
         raw = unhex(t[3])
         kind = t[2]
